@@ -9,9 +9,16 @@
     Oracle (does not use the model of the writer or of the parser): when T is inside the
     quantifier of C01 ([wfN]), Go's parser must accept Go's text, the parsed tree must have
     the same rooted shape, child order, names, numbers and comments as T, and the second
-    text must be the first one.  Go must never panic. *)
+    text must be the first one.  Go must never panic.
+    The glue: every observation also carries (glue ((id err [tree audit]) ...)), the records
+    utils.ReadMultiTrees delivers for the same text (fileutils.ReadUntilSemiColon over
+    bufio.Reader.ReadLine chunks of 4096 bytes, then the parser).  Correspondence: the same
+    records as Model/MultiTree.v [read_multi] over [phys_reads] with the C01 parser.  Oracle:
+    for T inside the quantifier whose text contains no line feed (a multi-tree stream is
+    line based: a line feed inside a name or comment is removed by this reader), exactly one
+    record, id 0, a tree with the rose view of T. *)
 From Coq Require Import String ZArith QArith Bool Arith List.
-From GT Require Import Base.Sexp Base.UTree Base.Codec Spec.NewickSpec Model.Newick Model.NewickNum Judge.Common.
+From GT Require Import Base.Sexp Base.UTree Base.Codec Spec.NewickSpec Model.Newick Model.NewickNum Model.MultiTree Judge.Common.
 Import ListNotations.
 Local Close Scope Q_scope.
 Local Open Scope string_scope.
@@ -47,6 +54,84 @@ Definition corr_parse (text gerr : string) (o : sexp) (k : utree -> verdict) (re
          end
   end.
 
+(** * the glue path *)
+Definition npP (s : string) : utree + string :=
+  match parseC s with
+  | POk t => inl t
+  | PErr m => inr m
+  | POutOfFuel => inr "model: newick parser out of fuel"
+  end.
+
+(** 4096 = the buffer of bufio.NewReader *)
+Definition bufsz : nat := 64 * 64.
+
+Definition model_glue (text : string) : option (list item) :=
+  match read_multi npP (phys_reads (S (String.length text)) bufsz text) with
+  | MDone l => Some l
+  | _ => None
+  end.
+
+(** a record of the implementation: (id err) or (id "" tree audit) *)
+Definition dec_rec (s : sexp) : option (nat * string * option utree) :=
+  match s with
+  | SList [i; Atom e] => n <- dec_nat i ;; Some (n, e, None)
+  | SList [i; Atom e; t; _] => n <- dec_nat i ;; u <- dec_utree t ;; Some (n, e, Some u)
+  | _ => None
+  end.
+Definition get_glue (o : sexp) : option (list (nat * string * option utree)) :=
+  x <- get "glue" o ;; dec_list dec_rec x.
+
+Fixpoint has_nonfinite (l : list item) : bool :=
+  match l with
+  | [] => false
+  | IErr _ m :: r => String.eqb m nonfinite_msg || has_nonfinite r
+  | _ :: r => has_nonfinite r
+  end.
+
+Fixpoint glue_same (m : list item) (g : list (nat * string * option utree)) : option string :=
+  match m, g with
+  | [], [] => None
+  | ITree i t :: mr, (j, e, Some u) :: gr =>
+    if negb (Nat.eqb i j) then Some "glue: record ids differ"
+    else if negb (String.eqb e "") then Some "glue: implementation reports an error with a tree"
+    else if negb (utree_eqb t u) then Some ("glue: trees differ, model: " ++ show_utree t)
+    else glue_same mr gr
+  | IErr i msg :: mr, (j, e, None) :: gr =>
+    if negb (Nat.eqb i j) then Some "glue: record ids differ"
+    else if negb (prefix msg e) then Some ("glue: model error (" ++ msg ++ "), implementation (" ++ e ++ ")")
+    else glue_same mr gr
+  | ITree _ _ :: _, (_, e, None) :: _ => Some ("glue: model delivers a tree, implementation the error " ++ e)
+  | IErr _ msg :: _, (_, _, Some _) :: _ => Some ("glue: model reports (" ++ msg ++ "), implementation delivers a tree")
+  | [], _ :: _ => Some "glue: implementation delivers more records than the model"
+  | _ :: _, [] => Some "glue: implementation delivers fewer records than the model"
+  end.
+
+Definition corr_glue (text : string) (o : sexp) : option string :=
+  match model_glue text with
+  | None => Some "glue: model panics or runs out of fuel"
+  | Some m =>
+    if has_nonfinite m then None
+    else match get_glue o with
+         | None => Some "glue: no or undecodable records in observation"
+         | Some g => glue_same m g
+         end
+  end.
+
+Definition has_lf (s : string) : bool := negb (forall_chars (fun c => negb (Ascii.eqb c (Ascii.ascii_of_nat 10))) s).
+
+(** oracle on the glue for a tree inside the quantifier *)
+Definition oracle_glue (t : utree) (text : string) (o : sexp) : option string :=
+  if has_lf text then None
+  else match get_glue o with
+       | Some [(0, e, Some g)] =>
+         if negb (String.eqb e "") then Some ("utils.ReadMultiTrees on the writer's output: " ++ e)
+         else if rose_eqb (rose_of g) (rose_of t) then None
+         else Some ("utils.ReadMultiTrees: the tree read back differs: " ++ show_utree g)
+       | Some ((_, e, None) :: _) => Some ("utils.ReadMultiTrees rejects the writer's output: " ++ e)
+       | Some _ => Some "utils.ReadMultiTrees does not deliver exactly one tree for the writer's output"
+       | None => Some "glue: no or undecodable records in observation"
+       end.
+
 Definition judge_roundtrip (c o : sexp) : verdict :=
   match get_tree "tree" c, get_string "err" o, get_string "text" o with
   | Some t, Some gerr, Some s =>
@@ -60,14 +145,16 @@ Definition judge_roundtrip (c o : sexp) : verdict :=
                            (if rose_eqb (rose_of g) (rose_of t) then None
                             else Some ("the tree read back from " ++ s ++ " differs: " ++ show_utree g));
                            (if String.eqb s2 s then None
-                            else Some ("second text " ++ s2 ++ " differs from the first " ++ s))]
+                            else Some ("second text " ++ s2 ++ " differs from the first " ++ s));
+                           oracle_glue t s o]
              | _, _ => Some "no tree/text2 in observation"
              end in
     match oracle with
     | Some m => VOracle m
     | None =>
       if negb (String.eqb (writeC t) s) then VCorr ("writer, model: " ++ writeC t ++ " implementation: " ++ s)
-      else corr_parse s gerr o
+      else match corr_glue s o with Some m => VCorr m | None =>
+           corr_parse s gerr o
              (fun g => match get_string "text2" o with
                        | None => VBad "no text2"
                        | Some s2 =>
@@ -76,6 +163,7 @@ Definition judge_roundtrip (c o : sexp) : verdict :=
                          else VCorr ("second write, model: " ++ writeC g ++ " implementation: " ++ s2)
                        end)
              (VOk false "rt:outside-rejected")
+           end
     end
   | _, _, _ => VBad "undecodable case or observation"
   end.
@@ -83,12 +171,14 @@ Definition judge_roundtrip (c o : sexp) : verdict :=
 Definition judge_parse (c o : sexp) : verdict :=
   match get_string "text" c, get_string "err" o with
   | Some s, Some gerr =>
+    match corr_glue s o with Some m => VCorr m | None =>
     corr_parse s gerr o
       (fun g => match audit_ok o with
                 | Some m => VOracle m
                 | None => VOk true "parse:accept"
                 end)
       (VOk false "parse:reject")
+    end
   | _, _ => VBad "undecodable case or observation"
   end.
 
